@@ -134,7 +134,9 @@ func vpH_c01_tamper() {
 	if vpParam("matrix") != 0 {
 		signed.Matrix = vpDecoyed(vpMixedMatrix("l", "u"), decoy)
 	}
-	penv := map[string]string{"P": pv}
+	// the pipeline variable's name may start with a word the package itself mentions (reserved-looking prefixes)
+	pn := vpStrConstLike("*", "^[A-Z][A-Z_]*_$", "") + "P"
+	penv := map[string]string{pn: pv}
 
 	useSigner := vpBool()
 	var key Key
@@ -158,7 +160,7 @@ func vpH_c01_tamper() {
 	if sig == nil {
 		return
 	}
-	vpAssert(signed.Env[an] == ev && len(signed.Env) == 1 && len(penv) == 1 && penv["P"] == pv, "signing leaves the step's and the caller's env as they were")
+	vpAssert(signed.Env[an] == ev && len(signed.Env) == 1 && len(penv) == 1 && penv[pn] == pv, "signing leaves the step's and the caller's env as they were")
 
 	// the presented world
 	pres := mkStep()
@@ -166,7 +168,7 @@ func vpH_c01_tamper() {
 		pres.Matrix = vpDecoyed(vpMixedMatrix("l", "u"), decoy)
 	}
 	presRepo := r
-	venv := map[string]string{"P": pv, "UNRELATED": "u"}
+	venv := map[string]string{pn: pv, "UNRELATED": "u"}
 	rec := &pipeline.Signature{Algorithm: sig.Algorithm, SignedFields: append([]string{}, sig.SignedFields...), Value: sig.Value}
 	ks := keySet
 
@@ -206,9 +208,9 @@ func vpH_c01_tamper() {
 		presRepo = r + x
 	case 12:
 		vpAssume(x != pv)
-		venv["P"] = x
+		venv[pn] = x
 	case 13:
-		delete(venv, "P")
+		delete(venv, pn)
 	case 14:
 		rec.Algorithm = "ES384"
 	case 15: // a mandatory field dropped from the signed-field list
@@ -224,7 +226,7 @@ func vpH_c01_tamper() {
 	case 16: // the signed pipeline variable dropped from the list
 		var nf []string
 		for _, f := range rec.SignedFields {
-			if f != "env::P" {
+			if f != "env::"+pn {
 				nf = append(nf, f)
 			}
 		}
@@ -244,7 +246,7 @@ func vpH_c01_tamper() {
 	case 21: // an extra env:: field that was not signed is claimed
 		rec.SignedFields = append(rec.SignedFields, "env::UNRELATED")
 	case 22: // a step env variable that shadows the signed pipeline variable appears
-		pres.Env["P"] = pv
+		pres.Env[pn] = pv
 	case 23: // plugin config key renamed
 		pres.Plugins[0].Config = map[string]any{"k" + x: cv}
 	case 31: // a key set that holds only a key of another algorithm
